@@ -80,9 +80,12 @@ var runtimes = map[string][]byte{
 	// creation), reads the balances of the accounts in words 0 and 1 (first touch) and reverts; the outer frame then pays
 	// the call value to the account in word 0
 	"nest": hist.RtNest,
+	// pays half the call value to the address in calldata word 0, then runs CREATE2 with its whole balance as value and a
+	// reverting constructor: called with its own child address, a value-carrying creation over a just-funded address fails
+	"factoryrv": hist.RtFactoryRv,
 }
 
-var runtimeNames = []string{"store", "revert", "loop", "kill", "log", "factory", "nest"}
+var runtimeNames = []string{"store", "revert", "loop", "kill", "log", "factory", "nest", "factoryrv"}
 
 func initCode(rt []byte) []byte {
 	n := byte(len(rt))
@@ -432,7 +435,7 @@ func (r *runner) deliver(h int64, i int, raw []byte, kind, tag string) (*violati
 			}
 			wantS := new(big.Int).Neg(new(big.Int).Add(fee, moved))
 			wantR := new(big.Int).Set(moved)
-			known := rtype != "unknown" && rtype != "factory" && rtype != "nest" // (a factory passes the value on to its child: judged by conservation)
+			known := rtype != "unknown" && rtype != "factory" && rtype != "nest" && rtype != "factoryrv" // (a factory passes the value on to its child: judged by conservation)
 			if rtype == "nest" && prePayee != nil && dS.Cmp(wantS) != 0 && !bytes.Equal(o.from, payee) {
 				return &violation{"sender-debit", cls, fmt.Sprintf("%s: sender balance changed by %s, want %s (nest call, value %s, status %s %s)", where, dS, wantS, o.value, status, errTxt)}, d
 			}
@@ -703,6 +706,13 @@ func (g *gen) olvm(e *sim.EthUser) (txgen.Tx, string) {
 		if g.ctrType[c] == "factory" {
 			a.Data = ethcmn.LeftPadBytes(hist.FactoryChild(c).Bytes(), 32)
 			a.Fee.Gas = []int64{300000, 300000, 100000, 60000}[g.u.N(4, "fgas")]
+		}
+		if g.ctrType[c] == "factoryrv" {
+			a.Data = ethcmn.LeftPadBytes(hist.FactoryRvChild(c).Bytes(), 32)
+			if a.Value.Sign() == 0 && g.u.N(4, "frv-zero") != 0 {
+				a.Value = big.NewInt(int64(g.u.Range(2, 1000000, "frv-v")))
+			}
+			a.Fee.Gas = []int64{300000, 300000, 100000}[g.u.N(3, "frgas")]
 		}
 		if g.ctrType[c] == "nest" {
 			pickAcc := func(label string) []byte {
